@@ -337,7 +337,11 @@ def run(ctx):
         exact = norm(a.value) == f"len({lname}) - 1" or norm(inc) == f"len({lname}) - 1"
         size_only = isinstance(inc, ast.Call) and norm(inc.func) == "len"  # len(l): off by one
         const = isinstance(inc, ast.Constant)
-        res.add("D-SYM", f, norm(a.value), "size-1", "ok" if exact else ("violation" if size_only or const else "unknown"), "" if exact else "the increment is not (hyperedge size - 1)", loc(v.fi, a))
+        # the walk of the property hops with rates (size - 1), whatever the weights of the hyperedges: an increment that reads a
+        # weight (`(len(l) - 1) * HG.get_weight(l) if weighted else len(l) - 1`, with `weighted` defaulting to "is the hypergraph
+        # weighted") changes K for every caller that does not pass the flag
+        weighty = any(isinstance(x, ast.Call) and isinstance(x.func, ast.Attribute) and x.func.attr in ("get_weight", "get_weights") for x in ast.walk(inc)) or any(isinstance(x, ast.Attribute) and x.attr == "_weights" for x in ast.walk(inc))
+        res.add("D-SYM", f, norm(a.value), "size-1", "ok" if exact else ("violation" if size_only or const or weighty else "unknown"), "" if exact else ("the increment is not (hyperedge size - 1)" if not weighty else f"the increment `{norm(inc)[:60]}` reads the weight of the hyperedge: the transition matrix of the property is built from (size - 1) alone, and random_walk / RW_stationary_state / random_walk_density call transition_matrix without a flag"), loc(v.fi, a))
         with res.guard("_loop_pairsres, v, ruleDSYM"):
             _loop_pairs(res, v, rule="D-SYM")
         normed = [n for n in walk_no_nested(v.fi.node) if isinstance(n, ast.BinOp) and isinstance(n.op, ast.Div) and ("sum(axis=1)" in norm(n.right) or "sum(axis=1)" in norm(v.inline(n.right, depth=3)) or "sum(1)" in norm(v.inline(n.right, depth=3)))]
